@@ -306,8 +306,13 @@ def judge_histories(ctx, lines, seed):
             raise RuntimeError("hs domain rejected a history: " + ";".join(recs)[:300])
         inp = {"stress_seed": seed, "scenario": scen, "params": params, "history": ";".join(recs)}
         if pf is not None:
-            ctx.violation("property-fails", inp, pf + ("; okHistory=" + ans))
             ok = False
+            reported = ctx.stats.get("history-violations-reported", 0)
+            if reported < 3:
+                ctx.stat("history-violations-reported")
+                ctx.violation("property-fails", inp, pf + ("; okHistory=" + ans))
+            else:
+                ctx.stat("more:history-property-fails")
         elif not lean_ok:
             ctx.violation("history-rejected", inp, "okHistory rejects the history but the python contract check accepts it", no_input=True)
             ok = False
